@@ -16,6 +16,7 @@ Scoping rules applied by the generator (the property statement of C05):
 The generator only shadows a name with a declaration of the same type, so that `llvm-tblgen` (whose lookup
 order between kinds of declarations differs from "innermost wins") accepts the programs regardless.
 """
+import os
 import random
 
 BIT, INT, STRING, CODE, DAG = ("bit",), ("int",), ("string",), ("code",), ("dag",)
@@ -43,7 +44,7 @@ def ty_text(t):
     return t[0]
 
 
-LLVM14_MISSING = {"field-access-list-element", "empty-list-no-context", "binary-literal-operand", "pasted-def-use", "body-defvar-reads-field", "repeated-include", "named-args", "uninitialised-field", "untyped-question", "!exists", "!div", "!tolower", "!toupper", "!range", "!getdagarg", "!getdagname", "!setdagarg",
+LLVM14_MISSING = {"include-in-block", "field-access-list-element", "empty-list-no-context", "binary-literal-operand", "pasted-def-use", "body-defvar-reads-field", "repeated-include", "named-args", "uninitialised-field", "untyped-question", "!exists", "!div", "!tolower", "!toupper", "!range", "!getdagarg", "!getdagname", "!setdagarg",
                   "!setdagname", "!listremove", "!logtwo", "!listflatten", "!repr", "!initialized", "dump"}
 
 
@@ -108,6 +109,9 @@ class Gen:
         self.globals = set()
         self.record_fields = None  # names that may not be shadowed by operator variables in the current record
         self.feats = feats or {}
+        # includes inside block bodies (off unless asked for: feats or TDGEN_INC_BLOCK=1)
+        self.inc_in_block = self.feats.get("include-in-block", os.environ.get("TDGEN_INC_BLOCK") == "1")
+        self.pending = []        # the not yet placed includes of the files being written, innermost last
         self.dead = []           # names whose declaring construct has ended: (name, key)
         self.hide = set()        # names not to be used right now (no self reference in an initialiser)
         self.pasted = set()
@@ -1146,6 +1150,21 @@ class Gen:
                 self.nl()
             for _ in range(n if n is not None else r.choice([1, 2, 3])):
                 self.w("  ")
+                if (self.inc_in_block and self.in_mc == 0 and self.pending and self.pending[-1] and r.random() < 0.5):
+                    # an include inside a block: the statements of the file are read in the scope of the block
+                    inc = self.pending[-1].pop(0)
+                    path = self.cur
+                    lo = self.here()
+                    self.w('include "%s"' % inc["name"])
+                    self.p.sites.append({"kind": "include", "path": path, "lo": lo, "hi": self.here(),
+                                         "target": inc["path"]})
+                    self.nl()
+                    self.open_file(inc["path"])
+                    self.file_body(inc["path"], inc["budget"], inc["includes"])
+                    self.cur = path
+                    self.feat("include")
+                    self.feat("include-in-block")
+                    self.w("  ")
                 stmt()
                 self.nl()
                 if self.probe and not self.probed and self.in_mc == 0 and r.random() < 0.1:
@@ -1399,12 +1418,13 @@ class Gen:
     def file_body(self, path, budget, includes):
         prev = self.cur
         self.cur = path
+        self.pending.append(includes)
         if self.r.random() < 0.3:
             self.w("// header é€\n")
         k = 0
         for _ in range(budget):
             # includes are placed between top-level statements, mostly at the top
-            while includes and self.r.random() < (0.8 if k == 0 else 0.2):
+            while includes and self.r.random() < ((0.8 if k == 0 else 0.2) if not self.inc_in_block else (0.35 if k == 0 else 0.1)):
                 inc = includes.pop(0)
                 lo = self.here()
                 self.w('include "%s"' % inc["name"])
@@ -1441,6 +1461,7 @@ class Gen:
         if self.probe and not self.probed:
             if self.probe_stmt():
                 self.nl()
+        self.pending.pop()
         self.cur = prev
 
     def program(self):
@@ -1459,6 +1480,51 @@ class Gen:
         for path, parts in self.bufs.items():
             self.p.files[path] = "".join(parts)
         return self.p
+
+
+# ---------------------------------------------------------------------------------------------------------
+# directed family: inheritance graphs in which an ancestor is reached a SECOND time before the parent that declares
+# the field (record.rs find_field_in / is_subclass_of_in walk the parents with a visited set: the second visit must be
+# skipped, not end the walk).  Each case: one use of the field `mixed` (marked in the text) and its declaration.
+def diamond_cases():
+    shapes = [
+        ("diamond-right-second",
+         "class Base { int b = 0; }\nclass Mixin { int <D>mixed</D> = 1; }\nclass Left : Base;\n"
+         "class Right : Base, Mixin;\nclass Diamond : Left, Right { int u = <U>mixed</U>; }\n"),
+        ("diamond-ancestor-relisted",
+         "class Base { int b = 0; }\nclass L : Base;\nclass R { int <D>mixed</D> = 1; }\n"
+         "class D : L, Base, R { int u = !add(<U>mixed</U>, b); }\n"),
+        ("diamond-own-ancestor-relisted",
+         "class A0 { int a = 0; }\nclass A1 : A0;\nclass Mixin { string <D>mixed</D> = \"m\"; }\n"
+         "class B1 : A1, A0, Mixin { string u = <U>mixed</U>; }\n"),
+        ("diamond-def-let",
+         "class Base { int b = 0; }\nclass Mixin { int <D>mixed</D> = 1; }\nclass Left : Base;\n"
+         "class Right : Base, Mixin;\nclass Diamond : Left, Right;\ndef d : Diamond { let <U>mixed</U> = 2; }\n"),
+        ("diamond-field-access",
+         "class Base { int b = 0; }\nclass Mixin { int <D>mixed</D> = 1; }\nclass Left : Base;\n"
+         "class Right : Base, Mixin;\nclass Diamond : Left, Right;\ndef d : Diamond;\ndef e { int v = d.<U>mixed</U>; }\n"),
+        ("diamond-three-levels",
+         "class Root { int r = 0; }\nclass M1 : Root;\nclass M2 : Root;\nclass Mixin { bit <D>mixed</D> = 1; }\n"
+         "class J : M1, M2, Mixin;\nclass K : J { bit u = <U>mixed</U>; }\n"),
+        ("diamond-template-argument-default",
+         "class Base { int b = 0; }\nclass Mixin { int <D>mixed</D> = 1; }\nclass Left : Base;\n"
+         "class Right : Base, Mixin;\nclass P<int q> { int z = q; }\nclass Diamond : Left, Right, P<<U>mixed</U>>;\n"),
+    ]
+    out = []
+    for key, marked in shapes:
+        text, pos = "", {}
+        i = 0
+        while i < len(marked):
+            for tag in ("<D>", "</D>", "<U>", "</U>"):
+                if marked.startswith(tag, i):
+                    pos[tag] = len(text.encode("utf-8"))
+                    i += len(tag)
+                    break
+            else:
+                text += marked[i]
+                i += 1
+        out.append({"key": key, "text": text, "use": [pos["<U>"], pos["</U>"]], "decl": [pos["<D>"], pos["</D>"]]})
+    return out
 
 
 def generate(rng, size=8, nfiles=None, probe=False, feats=None):
